@@ -20,3 +20,18 @@ func (s *Server) VerifNumConns() int {
 	defer s.connsMutex.Unlock()
 	return len(s.conns)
 }
+
+// VerifConnKeys returns the keys of the peer table (unordered); the key of an entry whose connection is
+// already closed (it is removed by the next housekeeping pass or replaced by the next datagram) ends in "!closed".
+func (s *Server) VerifConnKeys() []string {
+	s.connsMutex.Lock()
+	defer s.connsMutex.Unlock()
+	keys := make([]string, 0, len(s.conns))
+	for k, cc := range s.conns {
+		if cc.Context().Err() != nil {
+			k += "!closed"
+		}
+		keys = append(keys, k)
+	}
+	return keys
+}
